@@ -241,17 +241,7 @@ def r10c(chk, rid='R10.c'):
 def r10d(chk, rid='R10.d'):
     chk.rule(rid, 'set/remove: setProperty updates the effective entry (candidates come from getProperties(name, all=(not normalize)), never from the list of all entries) and appends otherwise; removeProperty rebuilds the list without every entry of the name and returns the effective value read before')
     m = chk.repo.mod(DECL)
-    sp = m.get('CSSStyleDeclaration.setProperty')
-    calls = [c for c in ast.walk(sp) if isinstance(c, ast.Call) and call_name(c) == 'self.getProperties']
-    if not calls:
-        raise AnalysisError('setProperty: getProperties call not found')
-    for c in calls:
-        a = kw(c, 'all')
-        ok = a is not None and text(a) in ('not normalize', '(not normalize)')
-        chk.ob(rid, DECL, 'CSSStyleDeclaration.setProperty', f'`{text(c)}` selects the effective entry when normalising', ok,
-               'with all entries as candidates the update hits the last entry, which is not the effective one when an earlier entry is !important')
-    app = [c for c in ast.walk(sp) if isinstance(c, ast.Call) and text(c.func) == 'self.seq.append']
-    chk.ob(rid, DECL, 'CSSStyleDeclaration.setProperty', 'a new entry is appended at the end', len(app) == 1 and const(app[0].args[1]) == 'Property', '')
+    _eval_set_property(chk, rid, m)
     rp = m.get('CSSStyleDeclaration.removeProperty')
     g = cfgmod.CFG(rp)
     read = [n for n in g.nodes if n.kind == 'stmt' and isinstance(n.stmt, ast.Assign) and 'self.getPropertyValue(name' in text(n.stmt.value)]
@@ -321,8 +311,21 @@ def r10e(chk, rid='R10.e'):
     chk.ob(rid, DECL, 'CSSStyleDeclaration.setProperty', f'`{var}` names this block as parent before it is appended', ok,
            '' if ok else 'a Property object handed in by the caller keeps its old (or no) parent: validation context and back-links are wrong: ' + ' -> '.join(path[-4:]))
     sc = m.get('CSSStyleDeclaration._setCssText')
-    src = ast.unparse(sc)
-    chk.ob(rid, DECL, 'CSSStyleDeclaration._setCssText', 'parsed properties are created with parent=self', 'Property(parent=self)' in src, '', shape=True)
+    # the function and the methods of the class it refers to (production callbacks may be closures or methods)
+    fns, todo = [], [sc]
+    while todo:
+        f = todo.pop()
+        if f in fns:
+            continue
+        fns.append(f)
+        for x in ast.walk(f):
+            if isinstance(x, ast.Attribute) and isinstance(x.value, ast.Name) and x.value.id == 'self' and m.has(f'CSSStyleDeclaration.{x.attr}'):
+                cand = m.get(f'CSSStyleDeclaration.{x.attr}')
+                if isinstance(cand, ast.FunctionDef) and cand.name.startswith('_') and cand not in fns:
+                    todo.append(cand)
+    made = [c for f in fns for c in ast.walk(f) if isinstance(c, ast.Call) and call_name(c).endswith('Property') and not call_name(c).startswith('self.')]
+    chk.ob(rid, DECL, 'CSSStyleDeclaration._setCssText', 'parsed properties are created with parent=self', bool(made) and all(text(kw(c, 'parent')) == 'self' for c in made),
+           f'{[text(c)[:50] for c in made]}: a parsed property does not know its block - validation (which looks at the parent rule, e.g. @font-face) and back-links are wrong')
     g2 = cfgmod.CFG(sc)
     rep = [n for n in g2.nodes if n.kind == 'for' and 'item.value._parent = self' in ast.unparse(n.stmt)]
     commit = [n for n in g2.nodes if any(call_name(c) == 'self._setSeq' for c in cfgmod.calls_at(n))]
@@ -480,3 +483,72 @@ def r10h(chk, rid='R10.h'):
                 chk.ob(rid, rel, q, f'`{text(m.enclosing_stmt(x))[:70]}` reaches the name map', ok, 'parsed value objects of another block are taken over instead of their text', trivial=ok)
     if n < 5:
         raise AnalysisError(f'only {n} uses of _vars found')
+
+
+
+def _eval_set_property(chk, rid, m):
+    """CSSStyleDeclaration.setProperty (with getProperties / getProperty, resolved in the class) evaluated
+    on its syntax tree over a model block."""
+    from sa.absint import Evaluator, Raised, Record
+
+    sp = m.get('CSSStyleDeclaration.setProperty')
+
+    class PropM(Record):
+        def __init__(self, name=None, value=None, priority='', parent=None, **k):
+            Record.__init__(self, literalname=name, name=(name or '').lower(), priority=priority, parent=parent, wellformed=k.pop('wellformed', True),
+                            propertyValue=Record(cssText=value), tag=k.pop('tag', 'NEW'), **k)
+
+    class SeqM(list):
+        _readonly = True
+
+        def append(self, val, typ=None, *a, **k):
+            list.append(self, Record(value=val, type=typ))
+
+    def block():
+        sq = SeqM()
+        for tag, lit, val, prio in ((1, 'a', '1', 'important'), (2, 'A', '2', ''), (None, None, None, None), (3, 'b', '3', ''), (4, 'a', '4', '')):
+            if tag is None:
+                list.append(sq, Record(value=Record(cssText='/*c*/'), type='COMMENT'))
+            else:
+                list.append(sq, Record(value=PropM(lit, val, prio, tag=tag), type='Property'))
+        return sq
+
+    def view(sq):
+        return [(it.value.tag, getattr(it.value.propertyValue, 'cssText', it.value.propertyValue), it.value.priority) for it in sq if isinstance(it.value, PropM)]
+
+    n = 0
+    bad = []
+    for name, normalize, replace, prio in ((x, nz, rp_, pr) for x in ('a', 'A', 'b', 'new') for nz in (True, False) for rp_ in (True, False) for pr in ('', 'important')):
+        sq = block()
+        removed = []
+        me = Record(seq=sq, _checkReadonly=lambda: None, _normalize=lambda x: x.lower(), _log=Record(warn=lambda *a, **k: None), removeProperty=lambda nm, normalize=True: removed.append(nm))
+        res = Evaluator(sp, intrinsics={'Property': PropM, 'self._log.warn': me._log.warn}, model_types=(SeqM,), module=m, cls='CSSStyleDeclaration').run(self=me, name=name, value='9', priority=prio, normalize=normalize, replace=replace)
+        n += 1
+        before = view(block())
+        props = [t for t in before]
+        # the entry an update must hit
+        if normalize:
+            hits = [t for t in before if {1: 'a', 2: 'a', 3: 'b', 4: 'a'}[t[0]] == name.lower()]
+        else:
+            hits = [t for t in before if {1: 'a', 2: 'A', 3: 'b', 4: 'a'}[t[0]] == name]
+        imp = [t for t in hits if t[2]]
+        # without normalising the documented behaviour is weaker ("may return NOT the effective value but the
+        # effective for the unnormalized name"): the last entry with that literal name is the one updated
+        target = ((imp if normalize else []) or hits or [None])[-1]
+        if replace and target is not None:
+            want = [(t[0], '9', prio) if t == target else t for t in before]
+        else:
+            want = before + [('NEW', '9', prio)]
+        got = view(sq) if not isinstance(res, Raised) else repr(res)
+        if got != want or sq._readonly is not True:
+            bad.append(f'setProperty({name!r}, "9", {prio!r}, normalize={normalize}, replace={replace}): {got}, prescribed {want}')
+    for empty in ('', None):
+        sq = block()
+        removed = []
+        me = Record(seq=sq, _checkReadonly=lambda: None, _normalize=lambda x: x.lower(), _log=Record(warn=lambda *a, **k: None), removeProperty=lambda nm, normalize=True: removed.append(nm))
+        Evaluator(sp, intrinsics={'Property': PropM}, model_types=(SeqM,), module=m, cls='CSSStyleDeclaration').run(self=me, name='a', value=empty)
+        n += 1
+        if removed != ['a'] or view(sq) != view(block()):
+            bad.append(f'setProperty("a", {empty!r}) must remove the property: removeProperty calls {removed}')
+    chk.extra['set_property_cases'] = n
+    chk.ob(rid, DECL, 'CSSStyleDeclaration.setProperty', f'all {n} cases: an update hits the effective entry of the name (the last !important one, else the last; by literal name without normalising), otherwise - or with replace=False - a new entry is appended; an empty value removes (by evaluation)', not bad, f'{len(bad)} differ, e.g. ' + ' | '.join(bad[:2]))
